@@ -22,6 +22,30 @@ def first_word(x):
 
 
 def run(b, ps, tier, seed):
+    """both halves: the outcome/verdict metamorphic suite on runnable programs below, and the verdict suite of
+    C14_verdict.py (accepted AND rejected texts, type-level mutants); the proof obligations of props/C14.v and of
+    props/C14_verdict.v both count"""
+    from . import C14_verdict as V
+    ps2 = C.proof_status(b, V.PROP_V)
+    ps.broken.update(ps2.broken)
+    ps.theorems = list(ps.theorems) + [t for t in ps2.theorems if t not in ps.theorems]
+    ps.cone_files = sorted(set(ps.cone_files) | set(ps2.cone_files))
+    ps.obligations, ps.discharged = ps.obligations + ps2.obligations, ps.discharged + ps2.discharged
+    ps.pa_text = (ps.pa_text or "") + "\n" + (ps2.pa_text or "")
+    ps.ok = ps.ok and ps2.ok
+    res = run_outcome(b, ps, tier, seed)
+    resv = V.run(b, ps2, tier, seed)
+    res["violations"] = list(res.get("violations", [])) + list(resv.get("violations", []))
+    cov = res.setdefault("coverage", {})
+    cv = resv.get("coverage", {})
+    cov["evaluations"] = cov.get("evaluations", 0) + cv.get("evaluations", 0)
+    cov["distinct_nontrivial"] = cov.get("distinct_nontrivial", 0) + cv.get("distinct_nontrivial", 0)
+    cov["verdict_half"] = {k: v for k, v in cv.items() if k != "samples"}
+    res["assumptions"] = list(res.get("assumptions", [])) + list(resv.get("assumptions", []))
+    return res
+
+
+def run_outcome(b, ps, tier, seed):
     violations = []
     if b.probe_error or b.model_error:
         return {"violations": [], "coverage": {"evaluations": 1, "distinct_nontrivial": 2, "samples": ["(not run: build broken)"]}}
@@ -42,6 +66,10 @@ def run(b, ps, tier, seed):
                 kinds["generator-failure"] += 1
                 continue
             items.append(("gen:%d" % k, pr.text, rs))
+    # alpha-variants among the run-time shapes (a binder re-using its subject / a dead name / the caller's name)
+    from .. import runshapes
+    for g, base, vs in runshapes.renaming_groups():
+        items.append((g, base, [(v, {}) for v in vs]))
     # hand-written collision cases from the corpus (reproducers of the capture findings and their renamed variants)
     import glob, os
     for p in sorted(glob.glob(os.path.join(C.CORPUS, "run", "*.grits"))):
